@@ -26,7 +26,7 @@ impl TraitHandler for DerefEnumHandler {
         let mut arms_token_stream = proc_macro2::TokenStream::new();
 
         if let Data::Enum(data) = &ast.data {
-            type Variants<'a> = Vec<(&'a Ident, bool, usize, Ident, &'a Type)>;
+            type Variants<'a> = Vec<(&'a Ident, bool, usize, Ident, &'a Type, Option<&'a Ident>)>;
 
             let mut variants: Variants = Vec::new();
 
@@ -83,11 +83,11 @@ impl TraitHandler for DerefEnumHandler {
                 };
 
                 let (field_name, is_tuple): (Ident, bool) = match field.ident.as_ref() {
-                    Some(ident) => (ident.clone(), false),
+                    Some(ident) => (format_ident!("_{}", ident), false),
                     None => (format_ident!("_{}", index), true),
                 };
 
-                variants.push((&variant.ident, is_tuple, index, field_name, &field.ty));
+                variants.push((&variant.ident, is_tuple, index, field_name, &field.ty, field.ident.as_ref()));
             }
 
             if variants.is_empty() {
@@ -99,7 +99,7 @@ impl TraitHandler for DerefEnumHandler {
 
             target_token_stream.extend(quote!(#dereference_ty));
 
-            for (variant_ident, is_tuple, index, field_name, _) in variants {
+            for (variant_ident, is_tuple, index, field_name, _, field_ident) in variants {
                 let mut pattern_token_stream = proc_macro2::TokenStream::new();
 
                 if is_tuple {
@@ -113,7 +113,7 @@ impl TraitHandler for DerefEnumHandler {
                         quote!( Self::#variant_ident ( #pattern_token_stream ) => #field_name, ),
                     );
                 } else {
-                    pattern_token_stream.extend(quote!( #field_name, .. ));
+                    pattern_token_stream.extend(quote!( #field_ident: #field_name, .. ));
 
                     arms_token_stream.extend(
                         quote!( Self::#variant_ident { #pattern_token_stream } => #field_name, ),
